@@ -81,12 +81,15 @@ def judge_setpoint(res, site, q, nT, F, xC, degenerate, info, case):
     nF = float(np.linalg.norm(F))
     if abs(nT - nF) > 1e-9 * (1 + nF):
         res.fail(site=site, clause="thrust_is_norm_of_demanded_force", cls=cls, detail=dict(info, nT=nT, want=nF), sub=case["sub"], case=case)
-    if degenerate:
+    if degenerate == "near_zero_force":
         return
     R = ref.R_from_quat(q)
     zb, yb = R[:, 2], R[:, 1]
+    # the thrust axis is well defined also when it is parallel to the heading vector (only the y axis is free there)
     if maxabs(zb - F / nF) > 1e-9:
         res.fail(site=site, clause="body_z_is_normalised_force", cls=cls, detail=dict(info, zb=zb, want=F / nF), sub=case["sub"], case=case)
+    if degenerate:
+        return
     if abs(float(yb @ xC)) > 1e-9:
         res.fail(site=site, clause="body_y_perpendicular_to_heading", cls=cls, detail=dict(info, yb=yb, xC=xC, dot=float(yb @ xC)), sub=case["sub"], case=case)
 
@@ -144,10 +147,13 @@ def explore_pc(case):
         for lo, hi in harvest.walk(prog, lambda t: mk_flat(qc, math.cos(t) * xC + math.sin(t) * perp), [0.0, 1e-6, 1e-4, 1e-2, 0.5]):
             res.add_set("harvested_boundaries", "position_control heading_angle=%r|%r" % (lo, hi))
             ds += [lo, hi]
+        horiz = np.cross(perp, xC)
         for d in ds:
             for sgn in (1.0, -1.0):
                 Fd = sgn * (math.cos(d) * xC + math.sin(d) * perp)
                 cases.append((yt, qc, -Fd / r.kp_pos, np.zeros(3), np.zeros(3), 0.0, 0.0, "offaxis=%r" % d))
+                Fh = sgn * (math.cos(d) * xC + math.sin(d) * horiz)
+                cases.append((yt, qc, -Fh / r.kp_pos, np.zeros(3), np.zeros(3), 0.0, 0.0, "azimuth=%r" % d))
     sigs = set()
     for yt, qc, e_p, e_v, at, trim, z_i, tag in cases[part::nparts]:
         res.count("evaluations")
@@ -192,9 +198,12 @@ def explore_se23(case):
         xC = np.array([math.cos(ytr), math.sin(ytr), 0.0])
         for s in (0.0, 1.0, -1.0, 1e-4, 0.9e-3, 1.1e-3):
             deg.append(((yt, qc), np.zeros(9), s * xC / r.m, 0.0, 0.0))
-        for d in (5e-4, 2e-3):
-            Fd = math.cos(d) * xC + math.sin(d) * np.array([0, 0, 1.0])
-            deg.append(((yt, qc), np.zeros(9), Fd / r.m, 0.0, 0.0))
+        for d in (5e-4, 9e-4, 2e-3):
+            for sgn in (1.0, -1.0):
+                Fd = sgn * (math.cos(d) * xC + math.sin(d) * np.array([0, 0, 1.0]))
+                deg.append(((yt, qc), np.zeros(9), Fd / r.m, 0.0, 0.0))
+                Fh = sgn * (math.cos(d) * xC + math.sin(d) * np.cross(np.array([0, 0, 1.0]), xC))
+                deg.append(((yt, qc), np.zeros(9), Fh / r.m, 0.0, 0.0))
     for (yt, qc), zeta, at, trim, z_i in (cases + deg)[part::nparts]:
         res.count("evaluations")
         out = f(trim, kp, zeta, at, qc, z_i, 0.01)
@@ -241,6 +250,9 @@ def explore_flat(case):
                 th = c * (math.cos(d) * xc + math.sin(d) * np.array([0, 0, 1.0]))
                 a = np.array([0, 0, g_]) - th / m_
                 cases.append((psi, a, jerks[1], snaps[1], 0.4, -0.3, "parallel d=%g" % d))
+                th = c * (math.cos(d) * xc + math.sin(d) * np.cross(np.array([0, 0, 1.0]), xc))
+                a = np.array([0, 0, g_]) - th / m_
+                cases.append((psi, a, jerks[1], snaps[1], 0.4, -0.3, "parallel azimuth d=%g" % d))
     for psi, a, j, s, pd, pdd, tag in cases[part::nparts]:
         res.count("evaluations")
         v = vels[0]
